@@ -473,6 +473,8 @@ Definition step_flat (e : enc) (s : list Z) (o : op) : value * obs :=
                  | Some sep' => keep (VR e (p_split P s sep')) | None => bad v end
   | Stack ps => match parts_stack s ps with
                 | Some (r :: rs) => keep (VR e (r :: rs)) | _ => bad v end
+  | RSlice starts ends =>          (* a[starts:ends] with array bounds (NPSArray._ragged_slice) *)
+      match p_rslice P [s] starts ends with Some r => keep (VR e r) | None => bad v end
   | _ => bad v
   end.
 
